@@ -21,7 +21,9 @@
      _handle_read's except clause, the EOF branch of _receive_data, close,
      _clear_pending_requests, _SocketManager.remove_peer_connection/disconnect_from_peer
                         -> [close_conn] / [fail]  (the connection is closed, one error reply per
-                            pending request is handed to the local router, the table is cleared).
+                            pending request is handed to the local router — each one, in table order,
+                            also when the router refuses some of them because the requester's handler
+                            is gone ([rejects] lists those handlers) — and the table is cleared).
 
    Abstract: context names, object ids and request ids are numbers (only compared for equality);
    a message is a record (kind, source, destination, opaque body token); pickle.loads followed by
@@ -93,10 +95,14 @@ Inductive err :=
 
 Inductive event :=
 | EDeliver (m : msg)     (* received message handed to router.deliver_message (after rewriting) *)
-| EFail (m : msg)        (* locally generated error reply handed to router.deliver_message *)
+| EFail (m : msg)        (* locally generated error reply handed to router.deliver_message and accepted *)
+| ERefused (m : msg)     (* locally generated error reply handed to router.deliver_message, which raised
+                            QMI_MessageDeliveryException (the requester's handler is not registered any
+                            more, e.g. an RPC future after its timeout); caught, the next one is tried *)
 | ESent (m : msg)        (* message written to the socket (after rewriting) *)
 | EError (k : err)       (* receive-side exception: the connection is closed *)
-| EAssert                (* send before the handshake: assert in send_message *)
+| EAssert                (* unused since _SocketManager.send_message catches the assert of a send before
+                            the handshake; kept so that old case terms still parse *)
 | EOutOfFuel.            (* never produced by [feed] (Proofs.v: feed_no_out_of_fuel) *)
 
 Fixpoint mem (x : N) (l : list N) : bool :=
@@ -110,17 +116,28 @@ Fixpoint remove_id (id : N) (l : list (N * (addr * addr))) : list (N * (addr * a
 
 Definition ids (l : list (N * (addr * addr))) : list N := map fst l.
 
-(* _clear_pending_requests: reply from the request's destination to its source *)
-Definition fail_reply (e : N * (addr * addr)) : event :=
-  let '(id, (src, dst)) := e in EFail (mkmsg (KReply id true) dst src 0).
+(* a locally generated error reply for request id, from -> to: delivered unless the router has no
+   handler for the requester (then the delivery exception is caught and nothing else happens) *)
+Definition local_error (c : cfg) (id : N) (from to : addr) : event :=
+  let m := mkmsg (KReply id true) from to 0 in
+  if mem (snd to) (rejects c) then ERefused m else EFail m.
 
-(* close(): socket closed, pending requests failed, table cleared *)
-Definition close_p (ps : pstate) : pstate * list event :=
-  (mkp (peer ps) true [], map fail_reply (pending ps)).
+(* is the requester of this pending entry still registered with the router? *)
+Definition registered (c : cfg) (e : N * (addr * addr)) : bool :=
+  negb (mem (snd (fst (snd e))) (rejects c)).
+
+(* _clear_pending_requests, one entry: reply from the request's destination to its source *)
+Definition fail_reply (c : cfg) (e : N * (addr * addr)) : event :=
+  let '(id, (src, dst)) := e in local_error c id dst src.
+
+(* close(): socket closed; EVERY pending request is attempted, in table order, whatever happens to
+   the others; table cleared *)
+Definition close_p (c : cfg) (ps : pstate) : pstate * list event :=
+  (mkp (peer ps) true [], map (fail_reply c) (pending ps)).
 
 (* the except clause of _handle_read *)
-Definition fail (ps : pstate) (k : err) : pstate * list event :=
-  let '(ps', ev) := close_p ps in (ps', EError k :: ev).
+Definition fail (c : cfg) (ps : pstate) (k : err) : pstate * list event :=
+  let '(ps', ev) := close_p c ps in (ps', EError k :: ev).
 
 Section WithCodec.
   Variable deser : bytes -> option msg.
@@ -129,22 +146,22 @@ Section WithCodec.
   (* _process_message *)
   Definition process (ps : pstate) (payload : bytes) : pstate * list event :=
     match deser payload with
-    | None => fail ps BadPayload
+    | None => fail c ps BadPayload
     | Some m =>
       match peer ps with
       | None =>
         match mkind m with
         | KHandshake srv =>
-            if (srv && incoming c) || (negb srv && negb (incoming c)) then fail ps WrongDirection
+            if (srv && incoming c) || (negb srv && negb (incoming c)) then fail c ps WrongDirection
             else (mkp (Some (fst (msrc m))) false (pending ps), [])
-        | _ => fail ps NoHandshake
+        | _ => fail c ps NoHandshake
         end
       | Some pn =>
         match mkind m with
-        | KHandshake _ => fail ps RepeatedHandshake
+        | KHandshake _ => fail c ps RepeatedHandshake
         | k =>
-          if negb (fst (mdst m) =? local_ctx c) then fail ps BadDestination
-          else if negb (fst (msrc m) =? pn) then fail ps BadSource
+          if negb (fst (mdst m) =? local_ctx c) then fail c ps BadDestination
+          else if negb (fst (msrc m) =? pn) then fail c ps BadSource
           else
             let m' := set_src m (alias c, snd (msrc m)) in
             let pend := match k with KReply id _ => remove_id id (pending ps) | _ => pending ps end in
@@ -168,11 +185,11 @@ Section WithCodec.
       match b with
       | [] => ((ps, b), [])
       | b0 :: _ =>
-        if negb (b0 =? marker) then let '(ps', ev) := fail ps BadMarker in ((ps', []), ev)
+        if negb (b0 =? marker) then let '(ps', ev) := fail c ps BadMarker in ((ps', []), ev)
         else if N.of_nat (length b) <? 9 then ((ps, b), [])
         else
           let size := le_decode (firstn 8 (skipn 1 b)) in
-          if maxsz c <? size then let '(ps', ev) := fail ps TooBig in ((ps', []), ev)
+          if maxsz c <? size then let '(ps', ev) := fail c ps TooBig in ((ps', []), ev)
           else if N.of_nat (length b) <? 9 + size then ((ps, b), [])
           else
             let n := N.to_nat size in
@@ -210,7 +227,7 @@ Section WithCodec.
   Definition send (ps : pstate) (m : msg) (sz : N) : pstate * list event :=
     let undeliverable :=
       match mkind m with
-      | KRequest id => [EFail (mkmsg (KReply id true) (mdst m) (msrc m) 0)]
+      | KRequest id => [local_error c id (mdst m) (msrc m)]
       | _ => []
       end in
     if closed ps then (ps, undeliverable)
@@ -219,7 +236,8 @@ Section WithCodec.
       | KHandshake _ => (ps, if maxsz c <? sz then [] else [ESent m])
       | k =>
         match peer ps with
-        | None => (ps, [EAssert])
+        | None => (ps, undeliverable)   (* the assert in send_message fails; _SocketManager.send_message
+                                           catches it like any send error (since fix ee70139) *)
         | Some pn =>
           let m' := set_dst m (pn, snd (mdst m)) in
           if maxsz c <? sz then (ps, undeliverable)
@@ -242,7 +260,7 @@ Section WithCodec.
 
   Definition close_conn (s : conn) : conn * list event :=
     let '(ps, _) := s in
-    if closed ps then (s, []) else let '(ps', ev) := close_p ps in ((ps', []), ev).
+    if closed ps then (s, []) else let '(ps', ev) := close_p c ps in ((ps', []), ev).
 
   Definition step (s : conn) (o : op) : conn * list event :=
     match o with
@@ -273,6 +291,22 @@ Fixpoint failed_ids (evs : list event) : list N :=
   | [] => []
   | EFail m :: r => match mkind m with KReply id _ => id :: failed_ids r | _ => failed_ids r end
   | _ :: r => failed_ids r
+  end.
+
+(* ids of the local error replies the router refused, and of all that were attempted *)
+Fixpoint refused_ids (evs : list event) : list N :=
+  match evs with
+  | [] => []
+  | ERefused m :: r => match mkind m with KReply id _ => id :: refused_ids r | _ => refused_ids r end
+  | _ :: r => refused_ids r
+  end.
+
+Fixpoint attempted_ids (evs : list event) : list N :=
+  match evs with
+  | [] => []
+  | EFail m :: r | ERefused m :: r =>
+      match mkind m with KReply id _ => id :: attempted_ids r | _ => attempted_ids r end
+  | _ :: r => attempted_ids r
   end.
 
 Fixpoint errors (evs : list event) : list err :=
